@@ -56,7 +56,7 @@ func (C03) Meta() core.Meta {
 		Assumptions: []string{"the editor does not hold the file key (a recipient can always re-MAC; that is outside the property)", "HMAC-SHA-256/HKDF are the trusted base"},
 		Real:        []string{"filippo.io/age Decrypt", "internal/format Parse", "X25519/scrypt/ssh identities", "headerMAC"},
 		Stub:        []string{"ciphertext source", "stored header image (edited copy of what SimDisk recorded)", "crypto/rand.Reader (tape)", "byzantine editor (reference writer without the key)"},
-		FaultKinds:  []string{"fault.flip", "fault.insert", "fault.delete", "fault.subst", "fault.wdrop", "fault.wdup", "fault.wswap", "fault.type", "fault.arg", "fault.argdel", "fault.argadd", "fault.body", "fault.bodylen", "fault.grease_insert", "fault.stanza_delete", "fault.stanza_dup", "fault.permute", "fault.mac_random", "fault.mac_otherkey", "fault.eol_cr", "fault.eol_crlf_all", "fault.eol_space", "fault.eol_blank", "fault.eol_join", "fault.sep_tab", "fault.sep_double", "fault.ins_str"},
+		FaultKinds:  []string{"fault.flip", "fault.insert", "fault.delete", "fault.subst", "fault.wdrop", "fault.wdup", "fault.wswap", "fault.type", "fault.arg", "fault.argdel", "fault.argadd", "fault.argswap", "fault.body", "fault.bodylen", "fault.grease_insert", "fault.stanza_delete", "fault.stanza_dup", "fault.permute", "fault.mac_random", "fault.mac_otherkey", "fault.eol_cr", "fault.eol_crlf_all", "fault.eol_space", "fault.eol_blank", "fault.eol_join", "fault.sep_tab", "fault.sep_double", "fault.ins_str"},
 		Probes:      []string{"probe.edit_in_other_recipients_stanza", "probe.still_parseable", "probe.unparseable", "probe.trivial_same_image", "probe.rejected_bad_mac", "probe.rejected_no_match", "probe.bufio_reuse_path", "probe.bufio_rewrap_path", "probe.fault_landed_in_payload", "probe.identity_list_alone", "probe.identity_list_first-of-two", "probe.identity_list_last-of-two", "probe.honest_file_after_the_edited_ones"},
 	}
 }
@@ -76,7 +76,7 @@ func (C03) Generate(r *core.RNG, tier string, idx uint64) interface{} {
 	}
 	p.File.Recips = lib.GenRecips(r, 5, r.Chance(1, 3), true)
 	e := &HeaderEdit{}
-	kinds := []string{"insert", "delete", "subst", "wdrop", "wdup", "wswap", "type", "arg", "argdel", "argadd", "body", "bodylen",
+	kinds := []string{"insert", "delete", "subst", "wdrop", "wdup", "wswap", "type", "arg", "argdel", "argadd", "argswap", "argswap", "body", "bodylen",
 		"grease_insert", "stanza_delete", "stanza_dup", "permute", "mac_random", "mac_otherkey", "flip",
 		"eol_cr", "eol_crlf_all", "eol_space", "eol_blank", "eol_join", "sep_tab", "sep_double", "ins_str", "ins_str"}
 	e.Kind = kinds[r.Intn(len(kinds))]
@@ -262,6 +262,53 @@ func applyHeaderEdit(e *HeaderEdit, F []byte, l *lib.Layout, disk *seam.SimDisk,
 		h.Stanzas[i].Args = h.Stanzas[i].Args[:len(h.Stanzas[i].Args)-1]
 	case "argadd":
 		h.Stanzas[i].Args = append(h.Stanzas[i].Args, e.S)
+	case "argswap":
+		// the same tokens in another order: two arguments exchanged, the type exchanged with an argument, or
+		// the last argument moved to the next stanza (the longest token of the header is preferred)
+		st := h.Stanzas[i]
+		long, li := 0, -1
+		for si, s2 := range h.Stanzas {
+			for _, a := range s2.Args {
+				if len(a) > long {
+					long, li = len(a), si
+				}
+			}
+		}
+		if li >= 0 && e.Bit%2 == 0 {
+			st = h.Stanzas[li]
+			i = li
+		}
+		if len(st.Args) == 0 {
+			return nil, false
+		}
+		a := e.J % len(st.Args)
+		switch e.N % 3 {
+		case 0:
+			b := (a + 1 + e.Bit%len(st.Args)) % len(st.Args)
+			if st.Args[a] == st.Args[b] {
+				return nil, false
+			}
+			st.Args[a], st.Args[b] = st.Args[b], st.Args[a]
+		case 1:
+			// longest argument first
+			bi := 0
+			for k := range st.Args {
+				if len(st.Args[k]) > len(st.Args[bi]) {
+					bi = k
+				}
+			}
+			if st.Type == st.Args[bi] {
+				return nil, false
+			}
+			st.Type, st.Args[bi] = st.Args[bi], st.Type
+		default:
+			if i+1 >= n {
+				return nil, false
+			}
+			last := st.Args[len(st.Args)-1]
+			st.Args = st.Args[:len(st.Args)-1]
+			h.Stanzas[i+1].Args = append([]string{last}, h.Stanzas[i+1].Args...)
+		}
 	case "body":
 		b := h.Stanzas[i].Body
 		if len(b) == 0 {
